@@ -31,7 +31,7 @@ ASSUMPTIONS = ["4 (quick) / 8 (thorough) hash seeds per case: a dependence that 
                "rdflib.compare.to_canonical_graph for SHACL isomorphism"]
 BUDGET = {"quick": {"examples": 0, "wall": 240, "cases": 1280}, "thorough": {"examples": 0, "wall": 5400, "cases": 20000}}
 FLOORS = {"nontrivial": 0.3, "chan:endpoint": 0.05, "chan:sm": 0.05, "byte-compared": 0.3}
-RDFLIB_ORDERED = ("turtle", "rdflib", "sm", "endpoint-cached")
+RDFLIB_ORDERED = ("turtle", "rdflib", "endpoint-cached")
 NS4 = {"http://a.org/": "", "http://b.org/": "weso-s", "http://c.org/": "shapes", "http://d.org/": "w-shapes"}
 
 
@@ -43,8 +43,14 @@ def cases(draw):
     cfg = draw(gg.switches())
     cfg["instances_report_mode"] = "mixed"
     case = {"g": g, "cfg": cfg, "chan": chan, "thr": draw(st.sampled_from([0, 0, 0.5, 1])), "fmt": draw(st.sampled_from(["ShEx", "ShEx", "Shacl"]))}
+    if draw(st.integers(0, 3)) == 0 and chan in ("nt", "tsv", "turtle_iter"):
+        # the instantiation triples are filtered out of the feature pass: shapes can become empty at higher thresholds,
+        # which exercises the removal code on a byte-compared channel
+        cfg["namespaces_to_ignore"] = ["http://www.w3.org/1999/02/22-rdf-syntax-ns#"]
+        case["thr"] = draw(st.sampled_from([0.5, 0.6, 0.75, 1]))
     if chan == "sm":
-        n = draw(st.integers(1, 2))
+        n = draw(st.integers(1, 4))
+        case["thr"] = draw(st.sampled_from([0, 0.5, 0.75, 1]))
         case["items"] = [{"sel": draw(c10.selector(g)), "label": {"form": "full", "name": "S%d" % i},
                           "styles": draw(st.lists(st.integers(0, 1), min_size=4, max_size=4))} for i in range(n)]
     else:
